@@ -336,6 +336,18 @@ UNITS = {
         ],
         "contracts": ["contracts/json_object.vc"],
     },
+    "config": {
+        "preludes": ["shims/core.rs", "shims/bytes.rs", "shims/config.rs"],
+        "specs": ["contracts/spec/config.rs"],
+        "sources": [
+            SYMBOL_SRC,
+            ("src/entry_point/mod.rs", ["struct:Config", "consts:Config"]),
+            ("src/entry_point/command_line_args/mod.rs", ["struct:CommandLineArgument", "fn:CommandLineArgument::get_command_line_arg_list", "fn:CommandLineArgument::_parse",
+                                                          "fn:CommandLineArgument::set_environment_variable"]),
+            ("src/entry_point/config_file/mod.rs", ["fn:read_config_file", "fn:strip_comment", "fn:strip_whitespaces"]),
+        ],
+        "contracts": ["contracts/config.vc"],
+    },
     "urlpath": {
         "preludes": ["shims/core.rs", "shims/bytes.rs", "shims/strslice.rs", "shims/urlpath.rs"],
         "specs": ["contracts/spec/urlpath.rs"],
@@ -496,7 +508,7 @@ PROPS = {
         ],
     },
     "C20": {
-        "units": ["response_parse", "range_parse", "base64_decode", "request_parse", "multipart", "json_array", "json_object", "urlpath"],
+        "units": ["response_parse", "range_parse", "base64_decode", "request_parse", "multipart", "json_array", "json_object", "urlpath", "config"],
         "level": "proof",
         "falsifier": ["parsers", "range", "stack"],
         "always_explore": ["parsers", "stack"],
@@ -509,9 +521,10 @@ PROPS = {
             "Base64::decode / every input returns Ok or Err (functional contract proved)",
             "JSON::parse_as_properties / termination of the 7 nested scanner loops (measure: bytes left in the cursor), no overflow of the i32 bracket counters, key_value_pair never empty at chars().last().unwrap()",
             "RawUnprocessedJSONArray::split_into_vector_of_strings / termination of 9 loops + postcondition items_ok (every item non-blank, a quoted item has 2+ characters) which JSONArrayOfStrings::parse_as_list_string needs for its slicing string[1..len-1]",
+            "read_config_file / precondition of std::env::set_var (key non-empty without '=' / NUL: proved for the 11 setting names; value without NUL: carried from the per-line check through strip_comment, the replace chain, split_once and join) - requires a NUL-free `prefix` argument",
             "UrlPath::extract_parts_from_pattern / postcondition / parts_ok(res): tokens and static texts alternate, static texts are non-empty, tokens have a name",
         ],
-        "assumptions": ["entry points NOT under contract (listed so that the claim is not read as complete; explored by the `parsers` routine on every run): the config-file reader, UrlPath::extract (UrlPath::extract_parts_from_pattern, is_matching and build ARE under contract; the pattern parser guarantees the alternation of parts that all three unwrap on), JSONArrayOfObjects::from_json / JSONArrayOfNulls (user traits), Header / Content-Range value parsers other than those of the response reader",
+        "assumptions": ["entry points NOT under contract (listed so that the claim is not read as complete; explored by the `parsers` routine on every run): UrlPath::extract (UrlPath::extract_parts_from_pattern, is_matching and build ARE under contract; the pattern parser guarantees the alternation of parts that all three unwrap on), JSONArrayOfObjects::from_json / JSONArrayOfNulls (user traits), Header / Content-Range value parsers other than those of the response reader",
                         "JSON scanners (JSON::parse_as_properties, RawUnprocessedJSONArray::split_into_vector_of_strings, the typed list readers): totality is proved for inputs below 2 GiB (i32 bracket counters); std::io::Cursor::read_exact / read_until, char::is_numeric / is_ascii_control / is_whitespace, <T as FromStr> are assumed std contracts",
                         "termination is proved; STACK DEPTH is not expressible in a contract: Request::parse, Response::parse, FormMultipartData::parse and the multipart/byteranges reader recurse once per line / per part and overflow a 2 MiB thread stack for inputs of 0.2 - 1 MB (known findings, reproduced on every run by the `stack` routine in child processes)"],
     },
